@@ -1299,7 +1299,7 @@ int _vnadata_load_touchstone(vnadata_internal_t *vdip, FILE *fp,
 	    if (next_token(&tps, F_INT) == -1) {
 		goto out;
 	    }
-	    if (tps.tps_token != T_INT) {
+	    if (tps.tps_token != T_INT || tps.u.tps_int < 0) {
 		_vnadata_error(vdip, VNAERR_SYNTAX, "%s (line %d) error: "
 			"expected a positive integer after "
 			"[Number of Frequencies]",
